@@ -53,8 +53,8 @@ func polyOut(acc bool, baseDLvl int, label string) *OutSpec {
 func ringTarget() *Target {
 	t := &Target{
 		Name: "ring.Ring", Envs: []string{"rlwe"}, NoScratch: true,
-		Type: reflect.TypeOf(&ring.Ring{}),
-		New:  func(e *Env) interface{} { return e.RLWE.RingQ().AtLevel(e.MaxLevel()) },
+		Type:             reflect.TypeOf(&ring.Ring{}),
+		New:              func(e *Env) interface{} { return e.RLWE.RingQ().AtLevel(e.MaxLevel()) },
 		DefaultNotTabled: "not in ring/operations.go or ring/scaling.go (the C09 anchors); kernels, NTT and automorphisms are exercised with aliasing by C01",
 		NotTabled:        map[string]string{},
 	}
@@ -258,8 +258,8 @@ func basisExtenderTarget() *Target {
 	}}
 	t := &Target{
 		Name: "ring.BasisExtender", Envs: []string{"rlwe", "bgv-1p"},
-		Type: reflect.TypeOf(&ring.BasisExtender{}),
-		New:  func(e *Env) interface{} { return ring.NewBasisExtender(e.RLWE.RingQ(), e.RLWE.RingP()) },
+		Type:      reflect.TypeOf(&ring.BasisExtender{}),
+		New:       func(e *Env) interface{} { return ring.NewBasisExtender(e.RLWE.RingQ(), e.RLWE.RingP()) },
 		NotTabled: map[string]string{"ShallowCopy": "copy constructor (C10)"},
 	}
 	t.Rows = []Row{
@@ -295,8 +295,8 @@ func basisExtenderTarget() *Target {
 func decomposerTarget() *Target {
 	t := &Target{
 		Name: "ring.Decomposer", Envs: []string{"rlwe", "bgv-1p"}, NoScratch: true,
-		Type: reflect.TypeOf(&ring.Decomposer{}),
-		New:  func(e *Env) interface{} { return ring.NewDecomposer(e.RLWE.RingQ(), e.RLWE.RingP()) },
+		Type:      reflect.TypeOf(&ring.Decomposer{}),
+		New:       func(e *Env) interface{} { return ring.NewDecomposer(e.RLWE.RingQ(), e.RLWE.RingP()) },
 		NotTabled: map[string]string{},
 	}
 	t.Rows = []Row{
